@@ -69,6 +69,15 @@ func cloneValue(src interface{}, dst interface{}) {
 			cloneValue(srcVal.Index(i).Interface(), dstElem.Index(i).Addr().Interface())
 		}
 
+	case reflect.Array:
+		// arrays are values but their elements may hold pointers, slices
+		// or maps which must not be shared between src and dst
+		newArray := reflect.New(srcType).Elem()
+		for i := 0; i < srcVal.Len(); i++ {
+			cloneValue(srcVal.Index(i).Interface(), newArray.Index(i).Addr().Interface())
+		}
+		dstVal.Elem().Set(newArray)
+
 	case reflect.Map:
 		dstElem := dstVal.Elem()
 		dstElem.Set(reflect.MakeMap(srcType))
